@@ -59,7 +59,7 @@ std::vector<PropSpec> const& props()
         {"C04", {{"mpi", 100}}, 10000, 400000, "exploration",
             "shim-MPI runs (1..33 ranks) under seeded arrival order, reduction order and stalls, each iteration compared with the public serial iteration; non-trivial = more than one rank; distinct = distinct plan shape hashes (distinct interleavings reported separately)"},
         {"C05", {{"durable", 55}, {"restart", 25}, {"rollback", 20}}, 60000, 2400000, "exploration",
-            "checkpoint objects (from runs, assembled through public constructors with corner values, empty with user state) serialised, destroyed and rebuilt, compared field by field and bit by bit; non-trivial = a restart happened; distinct = distinct plan shape hashes"},
+            "checkpoint objects (from runs, assembled through public constructors with corner values, empty with user state) serialised, destroyed and rebuilt, compared field by field and bit by bit; in run / reload / rollback histories the text of the live object is read back after every operation; non-trivial = a restart happened; distinct = distinct plan shape hashes"},
         {"C06", {{"poison", 85}, {"mpi", 15}}, 24000, 960000, "exploration",
             "paired runs: non-finite values injected at seeded calls vs. the same calls returning zero; non-trivial = at least one injected non-finite evaluation fired; distinct = distinct plan shape hashes"},
         {"C07", {{"grid", 70}, {"history", 15}, {"restart", 15}}, 18000, 720000, "exploration",
@@ -67,23 +67,23 @@ std::vector<PropSpec> const& props()
         {"C08", {{"weights", 50}, {"history", 18}, {"mpi", 12}, {"restart", 10}, {"rollback", 10}}, 60000, 2400000, "exploration",
             "multi-channel runs with up to 40 refinements plus direct probes of the refinement; probability-vector invariants and reference model; distinct = distinct plan shape hashes"},
         {"C09", {{"select", 70}, {"history", 30}}, 14000, 560000, "exploration",
-            "selector draws forced to 0, largest-below-1, every cumulative boundary and neighbours, mid points; inside runs and on the selector type directly; distinct = distinct plan shape hashes"},
+            "selector draws forced to 0, largest-below-1, every cumulative boundary and neighbours, mid points, in a seeded order and repeatedly; inside runs (each selection compared with a fresh selector given the same number) and on the selector type directly; distinct = distinct plan shape hashes"},
         {"C10", {{"usage", 28}, {"history", 42}, {"poison", 18}, {"mpi", 12}}, 60000, 2400000, "exploration",
-            "draw counter per call under all engines and faults, stored generator vs. discard, engines with odd ranges against the predictor; distinct = distinct plan shape hashes"},
+            "draw counter per call under all engines and faults, stored generator vs. discard, engines with odd ranges against the predictor, under the MPI shim every process must leave the run calls x cost further in its stream; distinct = distinct plan shape hashes"},
         {"C11", {{"bins", 60}, {"restart", 12}, {"mpi", 13}, {"poison", 15}}, 40000, 1600000, "exploration",
             "projector adds logged and re-binned by an independent long double reference (conservation per bin, edges ambiguous within one rounding error), probe coordinates on edges / outside / non-finite; distinct = distinct plan shape hashes"},
         {"C12", {{"protocol", 70}, {"mpi", 30}}, 18000, 720000, "exploration",
             "interleaved history of integrand calls and callback invocations; user callback stop positions; built-in callback with target 0 on degenerate integrands and with targets placed between reference relative errors; distinct = distinct plan shape hashes"},
         {"C15", {{"rollback", 100}}, 50000, 2000000, "exploration",
-            "operation histories over run / reload / rollback checked after every operation against the prefix-text model; distinct = distinct plan shape hashes"},
+            "operation histories over run (also with other numbers of calls than the first time) / reload / rollback checked after every operation against the text of a fresh run with exactly the calls the history has left in the checkpoint; distinct = distinct plan shape hashes"},
         {"C16", {{"mpi", 100}}, 10000, 400000, "exploration",
-            "engine position intervals of all ranks per iteration under the scripted engine; distinct = distinct plan shape hashes"},
+            "engine position intervals of all ranks per iteration (raw outputs incl. discards) under scripted and standard engines, worlds of 1..33 ranks, split worlds, calls below the world size; distinct = distinct plan shape hashes"},
         {"C17", {{"history", 50}, {"poison", 20}, {"select", 15}, {"bins", 15}}, 60000, 2400000, "exploration",
             "per-call protocol state machine inside scripted map and integrand; distinct = distinct plan shape hashes"},
         {"C18", {{"fscrash", 100}}, 25000, 1000000, "fault_enumeration",
-            "one traced execution per plan, every file system event boundary and byte prefix of every write evaluated as kill point (quick: all prefixes of writes up to 512 bytes, else first/last 64, 4096-byte boundaries and 256 seeded offsets); plus executed sequences of up to four kills and restarts; distinct = distinct plan shape hashes"},
+            "one traced execution per plan (serial, or under the MPI shim with every file system call a scheduling point), every file system event boundary and byte prefix of every write evaluated as kill point (quick: all prefixes of writes up to 512 bytes, else first/last 64, 4096-byte boundaries and 256 seeded offsets); plus executed sequences of up to four kills and restarts, some restarts in a non-writing mode; distinct = distinct plan shape hashes"},
         {"C19", {{"history", 35}, {"restart", 25}, {"mpi", 25}, {"rollback", 15}}, 10000, 400000, "exploration",
-            "bitwise chain of recorded states against the library's own refinement, points recomputed from the recorded state under the scripted engine; distinct = distinct plan shape hashes"},
+            "bitwise chain of recorded states against the library's own refinement (uninterrupted, resumed, rolled back, MPI, adaptation parameters changed between runs), points recomputed from the recorded state under the scripted engine; distinct = distinct plan shape hashes"},
         {"C20", {{"modes", 100}}, 16000, 640000, "exploration",
             "the same plan under all four callback modes (serial and shim-MPI), with disk faults and failing std::cout; distinct = distinct plan shape hashes"},
     };
@@ -95,12 +95,12 @@ std::vector<PropSpec> const& props()
 std::vector<std::string> expected_reach(std::string const& id)
 {
     static std::map<std::string, std::vector<std::string>> const m = {
-        {"C01", {"adapted-grid", "user-grid", "rational-weights", "adapted-weights", "floored-user-weights", "high-dimensional"}},
+        {"C01", {"adapted-grid", "user-grid", "rational-weights", "adapted-weights", "floored-user-weights", "high-dimensional", "state-through-text", "state-through-text-and-rollback"}},
         {"C02", {"zero-information-iteration", "lazy-densities-skipped", "values-outside-exponent-range"}},
         {"C03", {"fault:clean-interruption", "fault:kill-mid-iteration", "fault:restart-before-first-iteration", "interruption-subsets", "early-stop", "mpi-restart-vs-uninterrupted"}},
         {"C04", {"empty-share", "fault:arrival-reorder", "fault:stall-rank", "single-rank-vs-serial", "split-communicator", "fault:mpi-restart-other-world-size"}},
         {"C05", {"assembled-state", "empty-checkpoint-user-state", "state-from-run", "reload"}},
-        {"C06", {"fault:integrand-nonfinite"}},
+        {"C06", {"fault:integrand-nonfinite", "volume-run-with-non-finite-evaluations"}},
         {"C07", {"zero-information-iteration", "u-equals-one", "share-checked", "refine-direct", "canonical-zero"}},
         {"C08", {"zero-information-iteration", "floor-hit", "refine-direct"}},
         {"C09", {"canonical-zero", "boundary-values-forced", "selector-lattice", "subnormal-weight-total"}},
@@ -110,8 +110,8 @@ std::vector<std::string> expected_reach(std::string const& id)
         {"C15", {"rollback", "rollback-noop", "rollback-to-zero", "rollback-too-large", "rollback-after-reload", "reload"}},
         {"C16", {"empty-share", "split-communicator"}},
         {"C17", {"lazy-densities-skipped", "canonical-zero"}},
-        {"C18", {"crash-states", "fault:short-write", "fault:eintr", "fault:open-fails", "fault:kill-at-fs-event", "fault:kill-at-call", "fault:descheduled-before-file-system-call"}},
-        {"C19", {"fault:clean-interruption", "fault:restart-before-first-iteration", "empty-share"}},
+        {"C18", {"crash-states", "fault:short-write", "fault:eintr", "fault:open-fails", "fault:kill-at-fs-event", "fault:kill-at-call", "fault:descheduled-before-file-system-call", "restart-in-a-non-writing-mode"}},
+        {"C19", {"fault:clean-interruption", "fault:restart-before-first-iteration", "empty-share", "adaptation-parameters-changed-between-runs"}},
         {"C20", {"fault:short-write", "fault:io-error", "fault:cout-fail", "summary-many-channels"}},
     };
     auto it = m.find(id);
